@@ -58,6 +58,8 @@ def run(ctx, rep):
     rep.guarded("R12-VARKEY", lambda: r_varkey(sh, rep))
     rep.rule("R12-CONSTMAP", "constant folding to Data decides map-vs-list from the list's element type, not from its elements", floor=1)
     rep.guarded("R12-CONSTMAP", lambda: r_constmap(sh, rep))
+    rep.rule("R12-PARAMSCOPE", "the schema generator binds the parameters of a nested type application in a copy of the caller's bindings", floor=1)
+    rep.guarded("R12-PARAMSCOPE", lambda: r_paramscope(sh, rep))
     rep.rule("R12-SITES", "three single-site clauses: the expect decoder skips a traversal only when *every* component is Data; each handler's schema definitions start from an empty table; the orphan-pair pruning records every dependent", floor=3)
     rep.guarded("R12-SITES", lambda: r_sites12(sh, rep))
     rep.rule("R12-TOTAL", "no unreviewed panic site reachable from Parameter::validate", floor=2)
@@ -411,3 +413,22 @@ def r_sites12(sh, rep):
             c = n["cond"]
             ok = c.get("k") == "LetCond"  # nothing but the lookup itself decides
     rep.check(bool(ins) and ok, "R12-SITES", "prune_orphan_pairs#records-every-dependent", sh.loc(DEFS, ins[0]) if ins else sh.loc(DEFS, h), "the usage table must record every dependent of a referenced definition (the insert sits under a condition besides the lookup): a Pair whose first recorded user is itself pruned disappears while a surviving definition still refers to it")
+
+
+def r_paramscope(sh, rep):
+    """Annotated::do_from_type resolves a type variable through `type_parameters`; entering a type application it binds that
+    type's own parameters (collect_type_parameters). Those bindings belong to the nested definition only: made in the
+    caller's map they survive the call, and when the nested type is the caller's own type at another instantiation
+    (`P<P<Int>>`, `type P<a> { x: a, y: a }`) the caller's remaining fields are resolved with the inner binding — the
+    published schema of `y` is Int where the validator expects P<Int>. Rule: the map handed to collect_type_parameters is a
+    local copy (`let mut m = <params>.clone()`), not the function's own parameter."""
+    f = find_method(sh.file(SCH), "Annotated", "do_from_type")
+    rep.touched(SCH, "Annotated::do_from_type")
+    params = {i["pat"].get("name") for i in f["sig"]["inputs"] if isinstance(i.get("pat"), dict)}
+    calls = [c for c in walk(f["body"]) if c["k"] == "Call" and call_name(c) == "collect_type_parameters" and c["args"]]
+    if not calls:
+        raise AnchorMissing("collect_type_parameters call in Annotated::do_from_type")
+    for i, c in enumerate(calls):
+        a0 = re.sub(r"^&mut", "", sh.nsrc(SCH, c["args"][0]))
+        copies = [n for n in walk(f["body"]) if n["k"] == "Local" and n["pat"].get("k") == "Ident" and n["pat"]["name"] == a0 and n.get("init") is not None and sh.nsrc(SCH, n["init"]).endswith(".clone()") and (n["s"][0], n["s"][1]) < (c["s"][0], c["s"][1])]
+        rep.check(bool(copies), "R12-PARAMSCOPE", "do_from_type#nested-bindings-in-a-copy#%d" % i, sh.loc(SCH, c), "collect_type_parameters writes the nested type's parameter bindings into `%s`, the caller's own map: after the call the caller resolves its remaining fields with the nested instantiation (P<P<Int>> publishes the second field as Int)" % a0, sample={"map": a0, "is_fn_parameter": a0 in params})
